@@ -177,6 +177,11 @@ struct Position ghost_pos1;
 #else
 #define ISLEGAL_CASE(p, m, ic) 1
 #endif
+#ifdef CASE_GC
+#define GC_CASE(p, m) ((((p)->squares[(m)->from_] - 1) % 6) == CASE_GC)
+#else
+#define GC_CASE(p, m) 1
+#endif
 /* ghost move monitor (DESIGN section 3): the generators append only through MoveList::addMove; ghost_hits counts how often
    the arbitrary move ghost_m has been appended */
 struct Move ghost_m; int ghost_hits;
@@ -303,6 +308,11 @@ CONTRACTS.update({
                             'ensures': ['__CPROVER_return_value == spec_attacked_occ(pos->squares, sq, spec_occ(pos->squares), !pos->whiteMove)']},
     'MoveGen_inCheck': {'requires': [_POS, 'wf_bb(pos)', 'FLAGS_OK(pos)', 'men_ok(pos)'], 'assigns': [],
                         'ensures': ['__CPROVER_return_value == spec_in_check(pos)']},
+    'MoveGen_givesCheck': {'requires': [_POS, '__CPROVER_is_fresh(m, sizeof(*m))', 'wf_bb(pos)', 'FLAGS_OK(pos)', 'men_ok(pos)', 'wf_rights(pos)',
+                                        'spec_pseudo_legal(pos, m)', 'spec_leaves_king_safe(pos, m)', 'GC_CASE(pos, m)'],
+                           'assigns': [],
+                           # the verdict agrees with playing the move and looking at the opponent's king
+                           'ensures': ['__CPROVER_return_value == spec_gives_check(pos, m)']},
     'MoveGen_isLegal': {'requires': [_POS, '__CPROVER_is_fresh(m, sizeof(*m))', 'wf_bb(pos)', 'FLAGS_OK(pos)', 'men_ok(pos)', 'wf_rights(pos)',
                                      'spec_pseudo_legal(pos, m)', 'isInCheck == spec_in_check(pos)', 'same_board(pos, &ghost_pos1)', 'ISLEGAL_CASE(pos, m, isInCheck)'],
                         'assigns': ['*pos'],
@@ -349,6 +359,7 @@ void h_sqAttacked_b(void) { struct Position* p; int sq; U64 occ; havoc_tables();
 void h_sqAttacked3(void) { struct Position* p; int sq; U64 occ; havoc_tables(); MoveGen_sqAttacked3(p, sq, occ); CANARY_POINT; }
 void h_sqAttacked2(void) { struct Position* p; int sq; havoc_tables(); MoveGen_sqAttacked2(p, sq); CANARY_POINT; }
 void h_inCheck(void) { struct Position* p; havoc_tables(); MoveGen_inCheck(p); CANARY_POINT; }
+void h_givesCheck(void) { struct Position* p; struct Move* m; havoc_tables(); MoveGen_givesCheck(p, m); CANARY_POINT; }
 void h_isLegal(void) { struct Position* p; struct Move* m; _Bool ic = (nondet_int() != 0); havoc_tables(); __CPROVER_havoc_object(&ghost_pos1); MoveGen_isLegal(p, m, ic); CANARY_POINT; }
 '''
 HARNESS += r'''
@@ -381,6 +392,8 @@ _HELP = ('MoveGen_addMovesByMask', 'MoveGen_addPawnDoubleMovesByMask', 'MoveGen_
 for _sfx in ('_w', '_b'):
     GROUPS.append(Group('checkEvasions' + _sfx, 'h_checkEvasions' + _sfx, enforce='MoveGen_checkEvasions' + _sfx, replace=_ATT + _HELP, loop_contracts=True,
                         min_props=20, expect_loop_props=4, timeout=3000))
+GROUPS.append(Group('givesCheck', 'h_givesCheck', enforce='MoveGen_givesCheck', replace=('BitBoard_getDirection', 'BitBoard_firstSquare'), min_props=10, timeout=3000,
+                    unwindset={'MoveGen_nextPiece': 9, 'MoveGen_nextPieceSafe': 9}, cases=('case', [('CASE_GC=%d' % pt,) for pt in range(6)])))
 GROUPS.append(Group('isLegal', 'h_isLegal', enforce='MoveGen_isLegal',
                     replace=_ATT + ('MoveGen_inCheck', 'MoveGen_sqAttacked3', 'BitBoard_getDirection', 'BitBoard_firstSquare'), min_props=10, timeout=3000,
                     cases=('case', [('CASE_IC=%d' % ic, 'CASE_PT=%d' % pt) for ic in (0, 1) for pt in range(6)])))
